@@ -38,6 +38,11 @@ type Lab struct {
 	// MPStarts counts successful StartMultipartInsert calls per version.
 	MPStarts map[uint64]int
 
+	// TreeShortcut[slot] is set once a commit through the kept tree of that slot produced a root
+	// that already existed in the database (the backends then drop the batch).
+	TreeShortcut map[int]bool
+	trees        map[int]mkvs.Tree
+
 	cps      map[int]*cpData
 	restorer checkpoint.Restorer
 }
@@ -57,16 +62,25 @@ func NewLab(backend, dir string, h *History) (*Lab, error) {
 	}
 	return &Lab{
 		Backend: backend, Dir: dir, Raw: raw, DB: NewRecorder(raw), M: NewModel(), H: h,
-		ProofKeys: 3, Stats: map[string]int64{}, Damaged: map[hash.Hash]string{}, cps: map[int]*cpData{}, MPStarts: map[uint64]int{},
+		ProofKeys: 3, Stats: map[string]int64{}, Damaged: map[hash.Hash]string{}, cps: map[int]*cpData{}, MPStarts: map[uint64]int{}, TreeShortcut: map[int]bool{}, trees: map[int]mkvs.Tree{},
 	}, nil
 }
 
 // Close closes the database.
 func (l *Lab) Close() {
+	l.dropTrees()
 	if l.Raw != nil {
 		l.Raw.Close()
 		l.Raw = nil
 	}
+}
+
+func (l *Lab) dropTrees() {
+	for k, t := range l.trees {
+		t.Close()
+		delete(l.trees, k)
+	}
+	l.M.Trees = nil
 }
 
 // OpResult is the outcome of one executed op.
@@ -81,6 +95,8 @@ type OpResult struct {
 	Final   []*RootInfo // finalize: newly finalized
 	Disc    []*RootInfo // finalize: newly discarded
 	Panic   string
+	// KeptTree: the commit went through a long-lived tree that had committed before.
+	KeptTree bool
 }
 
 // Unexpected reports whether the observed outcome differs from the model's expectation.
@@ -180,12 +196,34 @@ func (l *Lab) Do(i int) (res OpResult) {
 			return
 		}
 		var tree mkvs.Tree
-		if parent == nil {
+		kept := l.M.KeptUsable(op) && l.trees[op.Tree] != nil
+		switch {
+		case kept:
+			tree = l.trees[op.Tree]
+			l.Stats["commit.via-kept-tree"]++
+		case parent == nil:
 			tree = mkvs.New(nil, l.DB, node.RootType(op.Type))
-		} else {
+		default:
 			tree = mkvs.NewWithRoot(nil, l.DB, parent.Root())
 		}
-		defer tree.Close()
+		if op.Tree > 0 && !kept {
+			if old := l.trees[op.Tree]; old != nil {
+				old.Close()
+			}
+			l.trees[op.Tree] = tree
+			l.TreeShortcut[op.Tree] = false
+		}
+		if op.Tree <= 0 {
+			defer tree.Close()
+		}
+		res.KeptTree = kept
+		dropKept := func() {
+			if op.Tree > 0 {
+				tree.Close()
+				delete(l.trees, op.Tree)
+				delete(l.M.Trees, op.Tree)
+			}
+		}
 		for _, w := range op.W {
 			if w.Del {
 				err = tree.Remove(ctx, w.K)
@@ -198,6 +236,7 @@ func (l *Lab) Do(i int) (res OpResult) {
 			}
 			if err != nil {
 				res.Class, res.ErrText = ErrClass(err), "tree write before commit: "+err.Error()
+				dropKept()
 				return
 			}
 		}
@@ -207,6 +246,7 @@ func (l *Lab) Do(i int) (res OpResult) {
 		after()
 		if err != nil {
 			res.Class, res.ErrText = ErrClass(err), err.Error()
+			dropKept()
 			return
 		}
 		if want, ok := l.Hashes[i]; ok && !want.Equal(&h) {
@@ -214,6 +254,10 @@ func (l *Lab) Do(i int) (res OpResult) {
 			return
 		}
 		existed := l.M.Find(op.Ver, op.Type, h) != nil
+		if existed && op.Tree > 0 {
+			l.TreeShortcut[op.Tree] = true
+			l.Stats["commit.kept-tree-root-already-existed"]++
+		}
 		r := l.M.ApplyCommit(i, op, h)
 		put, rem := l.DB.TakeBatch()
 		if !existed {
@@ -407,6 +451,7 @@ func (l *Lab) Do(i int) (res OpResult) {
 			return
 		}
 		before()
+		l.dropTrees() // a tree cannot outlive its database
 		l.Raw.Close()
 		raw, err := Open(l.Backend, l.Dir)
 		after()
@@ -459,6 +504,8 @@ func applyModel(m *Model, h *History, i int, hashes map[int]hash.Hash) {
 		m.ApplyFinalize(op)
 	case KPrune:
 		m.ApplyPrune(op.Ver)
+	case KReopen:
+		m.Trees = nil
 	case KMPStart:
 		m.MPVersion = op.Ver
 	case KMPAbort:
